@@ -34,6 +34,7 @@ KQS = {
     "auto_po2": "quantized_bits(6,1,1,alpha='auto_po2')",
     "auto_po2_default": "quantized_bits(4,0,1)",     # alpha=None is promoted to auto_po2 by the layer
     "po2": "quantized_po2(4)",
+    "po2_wide": "quantized_po2(8)",            # exponents down to -64: zero weights are stored as 2^-64
     "relu_po2": "quantized_relu_po2(4)",
     "binary_const": "binary(alpha=1)",
     "binary_auto": "binary(alpha='auto')",
@@ -41,8 +42,8 @@ KQS = {
     "ternary_auto": "ternary(alpha='auto')",
 }
 BQS = {"fixed": "quantized_bits(6,2,1,alpha=1)", "po2": "quantized_po2(5)", "none": None}
-KINDS = ["QDense", "QConv2D", "QDepthwiseConv2D", "QConv1D", "QSeparableConv2D", "QSimpleRNN", "QLSTM", "QGRU"]
-DATA_INDEP = {"fixed", "po2", "relu_po2", "binary_const", "ternary_const"}
+KINDS = ["QDense", "QConv2D", "QDepthwiseConv2D", "QConv1D", "QSeparableConv2D", "QSimpleRNN", "QLSTM", "QGRU", "QBidirectional"]
+DATA_INDEP = {"fixed", "po2", "po2_wide", "relu_po2", "binary_const", "ternary_const"}
 FREEZABLE = {"QDense", "QConv2D", "QDepthwiseConv2D"}
 HISTORIES = [["export"], ["export", "export"], ["freeze", "export"], ["freeze", "export", "export"]]
 
@@ -69,7 +70,7 @@ def enumerate_cases(tier, seed):
               # quick slice: every (kind, kernel quantizer) once with a po2 bias (the mixed-quantizer dictionary layout),
               # fixed / no bias quantizer and use_bias=False on QDense, batch-norm fusing on QConv2D
               keep = (bq == "po2" and use_bias and not bn) or (kind == "QDense" and not bn) or \
-                     (kind == "QConv2D" and bn and bq == "fixed" and use_bias)
+                     (kind == "QConv2D" and bn and bq in ("fixed", "po2") and use_bias)
               if not keep:
                 continue
             out.append(dict(layers=[dict(kind=kind, kq=kq, bq=bq, use_bias=use_bias, bn=bn)], _seed=seed))
@@ -89,7 +90,8 @@ def build(case):
   import qkeras  # pylint: disable=import-outside-toplevel
   L = tf.keras.layers
   first = case["layers"][0]["kind"]
-  shape = {"QDense": (5,), "QConv1D": (6, 3), "QSimpleRNN": (4, 3), "QLSTM": (4, 3), "QGRU": (4, 3)}.get(first, (6, 6, 3))
+  shape = {"QDense": (5,), "QConv1D": (6, 3), "QSimpleRNN": (4, 3), "QLSTM": (4, 3), "QGRU": (4, 3),
+           "QBidirectional": (4, 3)}.get(first, (6, 6, 3))
   x = inp = L.Input(shape, name="inp")
   for i, ly in enumerate(case["layers"]):
     kq, bq = KQS[ly["kq"]], BQS[ly["bq"]]
@@ -108,6 +110,9 @@ def build(case):
     elif kind == "QSeparableConv2D":
       x = qkeras.QSeparableConv2D(2, 2, depthwise_quantizer=kq, pointwise_quantizer=KQS["fixed"], bias_quantizer=bq,
                                   use_bias=ly["use_bias"], name=name)(x)
+    elif kind == "QBidirectional":
+      x = qkeras.QBidirectional(qkeras.QLSTM(2, kernel_quantizer=kq, recurrent_quantizer=KQS["fixed"], bias_quantizer=bq,
+                                             use_bias=ly["use_bias"], name="inner%d" % i), name=name)(x)
     else:
       extra = dict(reset_after=False) if kind == "QGRU" else {}
       x = getattr(qkeras, kind)(2, kernel_quantizer=kq, recurrent_quantizer=KQS["fixed"], bias_quantizer=bq,
@@ -149,6 +154,13 @@ def layer_qw(layer):
   qs = layer.get_quantizers()
   if cn in ("QSimpleRNN", "QLSTM", "QGRU"):
     qs = qs[:-1]
+  elif cn == "QBidirectional":
+    # the wrapper reports [forward kernel, recurrent, bias, state, backward kernel, recurrent, bias, state]; its weights
+    # are [forward kernel, recurrent, bias, backward kernel, recurrent, bias]: the quantizer of each WEIGHT is what
+    # the statement is about
+    nf = len(layer.forward_layer.get_weights())
+    f, b = layer.forward_layer.get_quantizers(), layer.backward_layer.get_quantizers()
+    qs = list(f[:nf]) + list(b[:len(layer.backward_layer.get_weights())])
   return list(qs), layer.get_weights()
 
 
@@ -325,7 +337,7 @@ def run_case(case):
         for l in model.layers:
           if hasattr(l, "quantizers") and l.__class__.__name__ in ("QDense", "QConv1D", "QConv2D", "QDepthwiseConv2D",
                                                                  "QSeparableConv2D", "QSimpleRNN", "QLSTM", "QGRU"):
-            allw += [w.ravel() for w in l.get_weights()]
+            allw += [w.ravel() for w in l.get_weights()]   # (QBidirectional is not in the library's sparsity allow-list)
         want = float(np.mean(np.concatenate(allw) == 0)) if allw else 0.0
         evals += 1
         if abs(sp - want) > 1e-12:
